@@ -248,6 +248,19 @@ func (a *Activation) stdlibCall(st *State, callee *ssa.Function, cc *ssa.CallCom
 	case "time.Now":
 		mark()
 		return a.havocValue(st, resT, "now"), true
+	case "context.Background", "context.TODO":
+		mark()
+		return a.havocValue(st, resT, "ctx"), true
+	case "context.WithTimeout", "context.WithCancel", "context.WithDeadline":
+		// the derived context and its cancel function touch no program state; calling the
+		// cancel function is a no-op for the verified code
+		mark()
+		g.trusted["context.WithTimeout/WithCancel: the returned CancelFunc only affects the context (no program-visible heap or ghost effect)"] = true
+		v := a.havocValue(st, resT, "ctx")
+		if len(v.Tuple) == 2 {
+			g.noopFns[v.Tuple[1].T.S] = true
+		}
+		return v, true
 	case "(*bufio.Reader).ReadByte":
 		// ghost Avail[r]: number of bytes the peer has actually sent and that are still unread
 		mark()
